@@ -16,6 +16,11 @@ type Native struct {
 	Noise bool
 	CRLF  bool // line endings (between tokens only; heredoc bodies keep LF)
 	Stats map[string]int
+	// Sparse (optional, for very large bodies): with Sparse > 1 only every
+	// Sparse-th layout decision is drawn, all others take the plain layout, so the
+	// noise is spread over the whole text at a bounded number of draws.
+	Sparse int
+	sites  int
 }
 
 func (n *Native) bump(k string) {
@@ -27,6 +32,12 @@ func (n *Native) bump(k string) {
 func (n *Native) pick(label string, k int) int {
 	if !n.Noise || k <= 1 {
 		return 0
+	}
+	if n.Sparse > 1 {
+		n.sites++
+		if n.sites%n.Sparse != 0 {
+			return 0
+		}
 	}
 	return rapid.IntRange(0, k-1).Draw(n.T, label)
 }
